@@ -498,7 +498,13 @@ def exact_cmp(opn, iv, fv):
         from fractions import Fraction
         import struct
         f = struct.unpack("<d", struct.pack("<Q", fv.v & ((1 << 64) - 1)))[0]
-        a, b = Fraction(iv.v), Fraction(f)
+        import math
+        if math.isnan(f):
+            return I("bool", opn == "Ne")
+        if math.isinf(f):
+            a, b = Fraction(0), Fraction(1 if f > 0 else -1)
+        else:
+            a, b = Fraction(iv.v), Fraction(f)
         return I("bool", {"Eq": a == b, "Ne": a != b, "Lt": a < b, "Le": a <= b, "Gt": a > b, "Ge": a >= b}[opn])
     A = z3.fpSignedToFP(z3.RNE(), iv.z(), Q)
     Bq = z3.fpFPToFP(z3.RNE(), z3.fpBVToFP(fv.z(), z3.Float64()), Q)
